@@ -48,6 +48,7 @@ type KnownFinding struct {
 	Property   string `json:"property"`
 	Obligation string `json:"obligation,omitempty"` // obligation name (or prefix ending in *)
 	Harness    string `json:"harness_case,omitempty"`
+	Detail     string `json:"detail_contains,omitempty"` // the failing case's detail must contain this (so that another kind of failure of the same case is still reported)
 	What       string `json:"what"`
 	Witness    string `json:"witness,omitempty"`
 }
@@ -366,7 +367,7 @@ func propMain(args []string, o RunOpts, tier string) int {
 		knownCases := map[*KnownFinding][]string{}
 		var knownOrder []*KnownFinding
 		for _, f := range hres.Failures {
-			if kf := matchKnownHarness(known, id, f.Case); kf != nil {
+			if kf := matchKnownHarness(known, id, f.Case, f.Detail); kf != nil {
 				if len(knownCases[kf]) == 0 {
 					knownOrder = append(knownOrder, kf)
 				}
@@ -379,7 +380,7 @@ func propMain(args []string, o RunOpts, tier string) int {
 			knownHit = append(knownHit, fmt.Sprintf("%s (%d bounded cases)", kf.Harness, len(cs)))
 		}
 		for _, f := range hres.Failures {
-			if kf := matchKnownHarness(known, id, f.Case); kf != nil {
+			if kf := matchKnownHarness(known, id, f.Case, f.Detail); kf != nil {
 				continue
 			}
 			if len(failing) == 0 {
@@ -498,10 +499,13 @@ func matchKnown(k *KnownFile, id, ob string) *KnownFinding {
 	return nil
 }
 
-func matchKnownHarness(k *KnownFile, id, c string) *KnownFinding {
+func matchKnownHarness(k *KnownFile, id, c, detail string) *KnownFinding {
 	for i := range k.Known {
 		kf := &k.Known[i]
 		if kf.Property != id || kf.Harness == "" {
+			continue
+		}
+		if kf.Detail != "" && !strings.Contains(detail, kf.Detail) {
 			continue
 		}
 		if kf.Harness == c || (strings.HasSuffix(kf.Harness, "*") && strings.HasPrefix(c, strings.TrimSuffix(kf.Harness, "*"))) {
